@@ -19,6 +19,17 @@ Deviations from DESIGN.md section "C14" (all on the side of demanding less, neve
 * Build-Ids are recomputed with Bob's own StepIR.getDigestCoro over the Build-Ids found in the *referenced
   records* of the same trail (self consistency), for steps that are neither fingerprinted nor non-relocatable.
 * the directory hash and the artifact-id are re-implemented here (tree_hash, artifact_id).
+* histories may contain an invocation with --no-audit (never the first or the last one of a workspace).  Bob removes the
+  trail of every step it executes then, and in later invocations it refuses (warning "AUDIT ... failed") to write a
+  trail for a step whose dependency has none.  From such an invocation on a missing trail is accepted in that
+  workspace (label trail-missing-after-no-audit); a trail that exists has to be truthful like any other.
+* in about one case of six the rendered project is committed to a fresh git repository before the first build (3 git
+  processes), 2-4 independent leaf packages are added and the builds run with -j2..4: Bob then records the state of the
+  recipes (`recipes`: type git, dir ".", commit == HEAD read from the repository files, dirty == a committed file was
+  modified by a later edit - for trails of the last invocation -, description ends with -dirty iff dirty, no remotes);
+  without repository no `recipes` key may exist.
+* shared kind, half of the cases: the producer also uploads (share location + --upload in one invocation) and the
+  consumer may download; rule (8) demands a regular file meta/audit.json.gz in every artifact.
 """
 import os, sys, re, copy, json, gzip, stat, struct, hashlib, tarfile, asyncio, datetime, base64
 from hypothesis import strategies as st
@@ -38,7 +49,12 @@ RULE = ("Generated projects (2-6 recipes, classes, multiPackages, tools incl. in
         "four kinds: fresh; incremental (1-3 generated edits, optionally a manual edit of a source workspace in "
         "between, a build after each, the trails are judged after every successful invocation); download (uploader builds S_A with --upload into a file archive, a second project at "
         "another path builds S_A + 0-2 edits with --download=yes|deps and other -M defines, optionally followed by a "
-        "second invocation there with the edits taken back); shared (two projects, one share store, same protocol). Oracle, with an independent gzip+json reader, for every step in the closure of the built root "
+        "second invocation there with the edits taken back); shared (two projects, one share store, same protocol, in "
+        "half of the cases the producer also uploads and the consumer may download). Invocations that are neither the "
+        "first nor the last of a workspace may run with --no-audit (afterwards missing trails are accepted there, "
+        "existing ones are judged as always). In ~1/6 of the cases the project is a git repository (committed before "
+        "the first build), has 2-4 extra independent leaf packages and is built with -j2..4; the `recipes` record is "
+        "then judged against the repository (commit, dirty), otherwise it must be absent. Oracle, with an independent gzip+json reader, for every step in the closure of the built root "
         "package whose producer is local (and for every downloaded/shared result): (1) each record conforms to a schema "
         "transcribed from doc/manual/audit-trail.rst; (2) every id under `dependencies` of the artifact and of each "
         "reference is in `references`; (3) variant-id == Variant-Id of the step (fresh in-process parse, same -D), "
@@ -51,7 +67,7 @@ RULE = ("Generated projects (2-6 recipes, classes, multiPackages, tools incl. in
         "dependency's current artifact-id; (6) import/url SCM records: type, dir, url as in the recipe, digest == "
         "recomputed hash of the checked out directory/file, git: commit == HEAD of the checkout, dirty, remotes; (7) artifact-id == own tagged SHA-1 over the record without "
         "`artifact-id`, for the artifact and every reference; (8) every uploaded tarball holds meta/audit.json.gz equal "
-        "to the uploader's workspace trail of that artifact-id; a downloaded/shared workspace carries the producer's "
+        "to the uploader's workspace trail of that artifact-id (a regular file); a downloaded/shared workspace carries the producer's "
         "complete document and its result-hash equals the hash of the local content; no invocation fails with a "
         "complaint about an audit trail. Non-trivial: a judged trail with "
         ">=1 tool reference and >=2 levels of references that was written by an incremental (not first) invocation, or "
@@ -1036,7 +1052,7 @@ def case_st(quick):
         "noaudit": st.lists(st.sampled_from([0, 0, 1]), min_size=3, max_size=3),
         "consumer_noaudit": st.sampled_from([False, False, True]),
         "sh_upload": st.booleans(),
-        "rgit": st.one_of(*([st.just(0)] * 5 + [st.integers(1, 9)])),
+        "rgit": st.one_of(*([st.just(0)] * 7 + [st.integers(1, 9)])),
         "dl_keep": st.sampled_from([0, 0, 1, 1, 2]),
         "dlmode": st.sampled_from(["yes", "yes", "deps"]),
         "dl_back": st.booleans(),
